@@ -293,14 +293,14 @@ PROPERTIES['C14'] = {
 PROPERTIES['C16'] = {
     'level': 'other',
     'configs': two,
-    'rules': [R(lock7a), olc('LOCK-7'), olc('ROLE'), R(ptr.ptr4), R(cfgdiff.assert_range), R(lockword.lw6)],
+    'rules': [R(lock7a), olc('LOCK-7'), olc('ROLE'), R(ptr.ptr4), R(ptr.ptr2), R(cfgdiff.assert_range), R(lockword.lw6)],
     'technique': 'static analysis: configuration differencing (statement-signature alignment of every function across single-axis flips of the build configuration with an effect classifier), API-surface differencing, typestate dataflow for read-section overwrite',
     'multi_rules': [R(cfgdiff.run_matrix), R(simd_axis)],
     'exhaustive': lambda tier: tier == 'thorough',
     'explanation': 'CD-1: for every single-axis flip of the build configuration (statistics on/off, assertions on/off, spin variant; quick: the baseline against its flips, thorough: all 16 configurations against theirs, exhaustively) the statement signatures of every function instantiated in both configurations are aligned in source order; every statement that exists on one side only must be part of a side-effect-free assertion, '
                    'touch only state that exists only in that configuration (set difference of the field / static / function tables), be a pure read, or be control flow listed in the exception table (one symbol + reason each) - a return, throw, shared-state write or mutating call that exists in one configuration only is a violation. CD-2: the public API of the index classes, encoder/decoder and pointer wrappers is identical across configurations except statistics getters. '
                    'SIMD axis: the vectorised searches (SLOT-1 first null slot of the I48 pointer array - SSE4.2 packs vs AVX2 packs + cross-lane permutes; FIND-1 / ORD-1 child lookup and insert position of I4 / I16) are evaluated lane-wise against ONE specification in the AVX2 and in the SSE4.2 configuration; meeting it in both is what makes the builds agree. '
-                   'LW-6 (assertion-enabled configurations): a read section clears its lock pointer on exactly the paths on which the lock-level call gave its read_lock_count unit back (check: on failure; try_read_unlock: always - conditions read off the lock code itself), so the unit is never given back twice. ASSERT-1 (assertion-enabled configurations): a debug-only counter compared with a narrower stored count cannot outgrow it (loop trip count capped by the node capacity <= 2^w - 1; a full I256 has 256 children and an 8-bit count). '
+                   'PTR-2 (assertion-enabled configurations): the per-thread registry of live qsbr_ptr values is exact - every member function that changes the wrapped address unregisters the old value before and registers the new one after, on every path - so the three rejection assertions (PTR-4) fire only when a wrapper is really alive: a stale registration makes the next legal quiescent state abort. LW-6 (assertion-enabled configurations): a read section clears its lock pointer on exactly the paths on which the lock-level call gave its read_lock_count unit back (check: on failure; try_read_unlock: always - conditions read off the lock code itself), so the unit is never given back twice. ASSERT-1 (assertion-enabled configurations): a debug-only counter compared with a narrower stored count cannot outgrow it (loop trip count capped by the node capacity <= 2^w - 1; a full I256 has 256 children and an 8-bit count). '
                    'LOCK-7b / ROLE: a read section is not used after it has been ended or handed to a callee that consumes it, and helpers receive the section their node argument was read under - in release builds a consumed section still carries its lock pointer and the slip goes unnoticed, in assertion-enabled builds the pointer is null and the next use crashes: behaviour would depend on the configuration. '
                    'LOCK-7a: in no function of the OLC code is a read section that may still be open overwritten by assignment. An overwritten open section loses its unit of the debug-build read_lock_count, which optimistic_lock::check_on_dealloc '
                    'asserts to be zero when the node is freed - the one internal assertion that legal usage (scan, then remove) could trip.',
